@@ -62,10 +62,9 @@ def check_roundtrip(inp):
         return Failure('roundtrip', inp, 'a formula', 'parser returned %r (%s)' % (g, e))
     if back != t:
         return Failure('roundtrip', inp, list(t), list(back), 'printed form %r parses to another tree' % text)
-    for node in fm.all_nodes(g):
-        if fm.module_lang(node) != logic:
-            return Failure('roundtrip', inp, 'every node of logic %s' % logic,
-                           'node %s of %s' % (type(node).__name__, type(node).__module__), text)
+    bad = fm.foreign_node(g, logic)
+    if bad:
+        return Failure('roundtrip', inp, 'a formula object of logic %s' % logic, bad, text)
     return None
 
 
